@@ -405,6 +405,11 @@ func c13RegistryDiscipline(p *Prog, r *Report, rule string) {
 							return true
 						}
 						isW := map[string]bool{"Store": true, "Delete": true, "Swap": true, "CompareAndSwap": true, "Clear": true}[sel.Sel.Name]
+						// a compound step of a small type of the package wrapped round the container
+						// (r.storage.take(id)): a write when its body - or what it calls - writes
+						if h := p.staticCallee(fi.Pkg, s); h != nil && h.Pkg == fi.Pkg && h.Decl != nil && h.Decl.Body != nil {
+							isW = bodyWritesState(p, h)
+						}
 						if wantWrite == isW {
 							res[fv.Name()] = true
 						}
@@ -2883,4 +2888,33 @@ func publishedSlicePath(p *Prog, fi *FuncInfo, outer *Flat) string {
 		})
 	}
 	return pubSlice
+}
+
+// bodyWritesState: the function (or a function of its package it calls, two levels) updates a container or a field:
+// a call of Store / Delete / Swap / CompareAndSwap / Clear, the builtins delete / clear, or an assignment to a field
+// or an element.
+func bodyWritesState(p *Prog, h *FuncInfo) bool {
+	w := false
+	for _, body := range p.deepBodies(h) {
+		ast.Inspect(body, func(y ast.Node) bool {
+			switch z := y.(type) {
+			case *ast.CallExpr:
+				if zs, ok := z.Fun.(*ast.SelectorExpr); ok && map[string]bool{"Store": true, "Delete": true, "Swap": true, "CompareAndSwap": true, "Clear": true}[zs.Sel.Name] {
+					w = true
+				}
+				if id, ok := z.Fun.(*ast.Ident); ok && (id.Name == "delete" || id.Name == "clear") {
+					w = true
+				}
+			case *ast.AssignStmt:
+				for _, l := range z.Lhs {
+					switch ast.Unparen(l).(type) {
+					case *ast.SelectorExpr, *ast.IndexExpr:
+						w = true
+					}
+				}
+			}
+			return !w
+		})
+	}
+	return w
 }
